@@ -15,8 +15,21 @@ pub const SIGMA: &[&[u8]] = &[
     b"#2",
 ];
 
+/// A second set of class representatives: the other member of every class the
+/// parser distinguishes (lower-case letters incl. the exponent marker, other
+/// digits, lower-case radix markers and the remaining ones, other white space,
+/// other invalid bytes, another block length).  Used for shorter sweeps.
+pub const SIGMA_ALT: &[&[u8]] = &[
+    b"a", b"b", b"e", b"Z", b"3", b"7", b"f", b"_", b"+", b"-", b".", b"#", b"'", b"\"", b",", b";", b":", b"?",
+    b"*", b"\x00", b"\x0b", b"\x1f", b"\n", b"!", b"\xff", b"#h", b"#q", b"#b", b"#Q", b"#B", b"#3",
+];
+
 pub fn sigma_json() -> serde_json::Value {
     serde_json::Value::Array(SIGMA.iter().map(|t| crate::util::show(t).into()).collect())
+}
+
+pub fn sigma_alt_json() -> serde_json::Value {
+    serde_json::Value::Array(SIGMA_ALT.iter().map(|t| crate::util::show(t).into()).collect())
 }
 
 /// Number of token strings of length <= l.
